@@ -366,6 +366,15 @@ func cmdCheck(args []string) {
 		fail(fmt.Errorf("no harness serves %s", id))
 	}
 
+	// validation of the stretch assumptions (A-PARSE, A-LEX, A-BOUNDARY) on this run's corpus
+	stRounds := 3
+	if *tier == "thorough" {
+		stRounds = 40
+	}
+	stSeeds, stChecked, stMism := runSelftest(stRounds, true)
+	if stMism > 0 {
+		fail(fmt.Errorf("selftest: the stretch map disagrees with the real parser on %d positions (encoding is wrong, nothing is reported)", stMism))
+	}
 	known := loadKnownFindings()
 	os.MkdirAll(filepath.Join(verifRoot, "out", "replay"), 0o755)
 	var violations, confirmedKnown, unconfirmed []string
@@ -570,6 +579,7 @@ func cmdCheck(args []string) {
 		"notes":                         allNotes,
 		"native_replays":                replays,
 		"explanation":                   "bounded symbolic execution of the real SSA of /repo (rebuilt this run) with an SMT solver deciding every branch and obligation; see DESIGN.md",
+		"assumption_validation":         map[string]interface{}{"what": "A-PARSE/A-LEX/A-BOUNDARY: concrete layouts (VERIF_SEED) parsed by the real parser and compared with the stretch map", "seeds": stSeeds, "layouts_per_seed": stRounds, "positions_compared": stChecked, "mismatches": stMism},
 		"load_seconds":                  w.loadSecs,
 		"ssa_build_seconds":             w.buildSecs,
 	}
